@@ -105,7 +105,7 @@ Definition all_eqb (m o : list obs) : bool := list_eqb obs_eqb m o.
 Definition guards (i : input) : list bool :=
   match i_spec i with
   | SRaw => [true; true; true]
-  | SSse _ _ bs => [guard_F18a bs; guard_F18c bs; guard_dom bs]
+  | SSse _ _ bs => [guard_F18a bs; true; guard_dom bs]
   | SNd _ _ ls => [guard_nd_F18a ls; true; forallb no_crlf ls]
   end.
 
@@ -123,7 +123,7 @@ Definition diag (c : input * list obs) : N :=
                  negb (Nat.eqb (length m) (length (snd c))); negb (int_ok (fst c))]) 256.
 
 (* bit0: model <> implementation (any chunking, any observable, or the spec/stream sanity checks);
-   bit1: guard_F18a false; bit2: guard_F18c false; bit3: outside the encoding's domain;
+   bit1: guard_F18a false; bit2: unused (was F18b, then F18c: both fixed); bit3: outside the encoding's domain;
    bits 8..: diagnostics — 8 ill-formed flag, 9 bytes, 10 texts, 11 lines, 12 sse, 13 events_text, 14 ndjson,
    15 end-to-end (generated client), 16 harness encoder <> Streaming.encode, 17 chunkings of different streams, 18 arity,
    19 py_int_ascii <> CPython's int() on an ASCII candidate *)
